@@ -552,3 +552,19 @@ def small_literals(nodes, cap=8):
                 if v is not None and 2 <= v <= cap:
                     out.add(v)
     return out
+
+
+def big_literals(nodes, lo=9, hi=1 << 20):
+    """integer literals lo..hi occurring in arithmetic, masks and comparisons: candidates for thresholds a small model never reaches"""
+    out = set()
+    for n in walk(nodes):
+        if n[0] == "binary" and n[1] in ("==", "!=", "<", "<=", ">", ">=", "%", "-", "+", "&", "|", "/", "*", ">>", "<<"):
+            for c in (n[2], n[3]):
+                v = int_of(c) if is_node(c) and c[0] in ("lit", "cast") else None
+                if v is not None and lo <= v <= hi and n[1] not in (">>", "<<"):
+                    out.add(v)
+        elif n[0] in ("p_lit", "p_range"):
+            v = int_of(n) if n[0] == "p_lit" else None
+            if v is not None and lo <= v <= hi:
+                out.add(v)
+    return out
